@@ -93,6 +93,11 @@ def _arrays(tier, seed):
     for pc in range(12):  # a single note of every pitch class (the smallest input: its only context is itself), and two-note inputs
         out.append(("single_note_pitch_class_%d" % pc, [(24 + 12 * (pc % 5) + pc, 0, 1)]))
     out.append(("two_notes_a_tritone_apart", [(66, 0, 1), (60, 1, 1)]))
+    # pieces whose first note is the one pitch class the initial-spelling table treats specially (E flat / D sharp), in contexts pulling either way
+    out.append(("begins_on_e_flat_in_a_context_of_d_and_g_sharp", [(63, 0, 1), (62, 1, 1), (62, 2, 1), (62, 3, 1), (62, 4, 1), (68, 5, 1), (62, 6, 1)]))
+    out.append(("begins_on_d_sharp_in_a_context_of_e_and_b", [(63, 0, 1), (64, 1, 1), (71, 2, 1), (64, 3, 1), (66, 4, 1), (68, 5, 1), (64, 6, 2)]))
+    for pc0 in range(12):
+        out.append(("begins_on_pitch_class_%d_then_d_major_scale" % pc0, [(60 + pc0, 0, 1)] + [(p, 1 + i, 1) for i, p in enumerate((62, 64, 66, 67, 69, 71, 73, 74, 68))]))
     out.append(("four_part_chords_with_chromatic_notes", [(p, t, 1) for t, ch in enumerate(((48, 55, 64, 72), (47, 56, 62, 74), (45, 57, 61, 76), (50, 54, 63, 69), (43, 58, 62, 70), (44, 53, 60, 75), (49, 52, 61, 68), (48, 55, 64, 72)))
                                                           for p in ch]))
     out.append(("extremes", [(21, 0, 1), (108, 0, 1), (22, 1, 0.5), (107, 1.5, 2)]))
